@@ -4,6 +4,7 @@ import props_lexer
 import props_tables
 import props_classes
 import props_gendir
+import props_crash
 CHECKS = {
     "C01": props_parser.c01,
     "C03": props_parser.c03,
@@ -19,4 +20,5 @@ CHECKS = {
     "C15": props_classes.c15,
     "C13": props_gendir.c13,
     "C14": props_gendir.c14,
+    "C12": props_crash.c12,
 }
